@@ -1044,6 +1044,8 @@ void usim_solo_end(void)
 	G.solo_tid = -1;
 }
 
+void usim_lib_threads_create_fail(int on) { G.lib_create_fail = on; }
+
 void usim_allow_create_fail(int on)
 {
 	if (cur)
@@ -1504,10 +1506,28 @@ static void run_key_dtors(struct sthr *me)
 	}
 }
 
+void usim_thread_exit_hook(void (*fn)(int past_last_destructor_signal)) { G.thread_exit_hook = fn; }
+
 static void thread_finish(struct sthr *me, void *ret)
 {
-	int i;
+	int i, late = 0;
 	run_key_dtors(me);
+	/*
+	 * As in glibc: no destructor round follows, but the thread still runs for a short while with
+	 * whatever signal mask the last destructor left. A signal that is still planned for this thread
+	 * may arrive now (fault kind "signal_after_last_tsd_destructor").
+	 */
+	if (me->nsigplan && me->sigdepth == 0 && !G.quiet && usim_fault("signal_after_last_tsd_destructor", 1, 6)) {
+		for (i = 0; i < me->nsigplan; i++)
+			if (me->sigplan[i].at_acc > me->accs)
+				me->sigplan[i].at_acc = me->accs;
+		sig_recompute(me);
+		i = me->nsigplan;
+		rt_signal_check(me);
+		late = me->nsigplan < i;
+	}
+	if (G.thread_exit_hook && me->id != 0)
+		G.thread_exit_hook(late);
 	rt_sb_drain_all(me);
 	me->ret = ret;
 	me->state = T_EXITED;
@@ -1569,7 +1589,8 @@ int usim_pthread_create(pthread_t *thread, const pthread_attr_t *attr,
 	}
 	rt_sb_drain_all(me);
 	rt_sched_point(Y_SYS);
-	if (me->allow_create_fail && usim_fault("pthread_create_eagain", 1, 3))
+	/* threads the library started itself (they carry no scenario name): its resize worker creating partition helpers */
+	if ((me->allow_create_fail || (G.lib_create_fail && !me->name[0])) && usim_fault("pthread_create_eagain", 1, 3))
 		return EAGAIN;
 	t = rt_new_thread();
 	t->fn = fn;
